@@ -182,7 +182,7 @@ func c10Plain(c *run.C) {
 }
 
 var c10Suites = []*run.Suite{
-	{Name: "encoders", N: tierN(120000, 4000000), Case: c10Encoders, Require: []string{"encoder_pairs_json", "encoder_pairs_ubjson", "encoder_pairs_cborl", "depth_comparisons"}},
+	{Name: "encoders", N: tierN(120000, 4000000), Case: c10Encoders, Require: hookedReq([]string{"encoder_pairs_json", "encoder_pairs_ubjson", "encoder_pairs_cborl"}, "depth_comparisons")},
 	{Name: "plain", N: tierN(40000, 1200000), Case: c10Plain, Require: []string{"plain_pairs"}},
 }
 
